@@ -187,6 +187,29 @@ func runC03(c *eng.Ctx) {
 		}
 		c.Sample(map[string]any{"composite": src, "rule": name})
 	}
+	checkSrc := func(pi int, name, src string, want func(di int) int, cell func(di int) string) {
+		ev, err := bexpr.CreateEvaluator(src)
+		if err != nil {
+			return
+		}
+		for di := range ds {
+			o := observe(ev, data[di])
+			c.R.Evaluations++
+			c.R.States++
+			c.R.Traces++
+			c.R.Nontrivial++
+			got, w := cls3(o), want(di)
+			if w < 0 || got < 0 {
+				continue
+			}
+			if got != w {
+				c.Violate(eng.Violation{Kind: "table-mismatch:" + name, Key: caseKey(src, ds[di], defaultCfg), Coords: map[string]int{"p": pi},
+					Case: describe(src, ds[di], defaultCfg), Expected: v3name[w] + " (" + cell(di) + ")", Observed: v3name[got]})
+			} else {
+				c.Count(name)
+			}
+		}
+	}
 	n := len(pool)
 	for pi := 0; pi < n*n; pi++ {
 		if !c.Mine(pi) || !c.Want("p", pi) {
@@ -243,10 +266,43 @@ func runC03(c *eng.Ctx) {
 				// A o1 (B o2 C)
 				check(n*n+ti, "triple-right:"+opn[o1]+"("+opn[o2]+")", &Bin{Or: o1, L: A, R: &Bin{Or: o2, L: B, R: C}},
 					func(d int) int { return f1(a[d], f2(b[d], cc[d])) }, func(d int) string { return opn[o1] + ":" + v3name[a[d]] + "," + v3name[f2(b[d], cc[d])] })
+				// the same three parts WITHOUT parentheses around the composite: where the implementation accepts the spelling (bare
+				// quantifiers are not part of the language on the pinned tree) it must mean what the precedence of the grammar says:
+				// `and` binds tighter than `or`, chains nest to the right
+				if src3, ok := bare3(A, B, C, o1, o2); ok {
+					if _, err := bexpr.CreateEvaluator(src3); err == nil {
+						want3 := func(d int) int { return f1(a[d], f2(b[d], cc[d])) }
+						if !o1 && o2 { // A and B or C = (A and B) or C
+							want3 = func(d int) int { return or3(and3(a[d], b[d]), cc[d]) }
+						}
+						checkSrc(n*n+ti, "triple-bare:"+opn[o1]+","+opn[o2], src3, want3, func(d int) string { return "bare:" + v3name[a[d]] + "," + v3name[b[d]] + "," + v3name[cc[d]] })
+					} else {
+						c.Count("bare-spelling-not-in-the-language")
+					}
+				}
 				// (A o1 B) o2 C
 				check(n*n+ti, "triple-left:("+opn[o1]+")"+opn[o2], &Bin{Or: o2, L: &Bin{Or: o1, L: A, R: B}, R: C},
 					func(d int) int { return f2(f1(a[d], b[d]), cc[d]) }, func(d int) string { return opn[o2] + ":" + v3name[f1(a[d], b[d])] + "," + v3name[cc[d]] })
 			}
 		}
 	}
+}
+
+// bare3 renders `A o1 B o2 C` without parentheses around the operands that do not need them for their OWN structure: match
+// expressions, negations and quantifiers are written bare, composite operands keep their parentheses.
+func bare3(A, B, C any, o1, o2 bool) (string, bool) {
+	part := func(e any) (string, bool) {
+		switch e.(type) {
+		case *Match, *Quant:
+			return Render(e), true
+		case *Not:
+			return Render(e), true
+		}
+		return "(" + Render(e) + ")", true
+	}
+	w := map[bool]string{false: " and ", true: " or "}
+	sa, _ := part(A)
+	sb, _ := part(B)
+	sc, _ := part(C)
+	return sa + w[o1] + sb + w[o2] + sc, true
 }
